@@ -13,7 +13,11 @@ _PLAIN = re.compile(r'[a-z][A-Za-z0-9_]*\Z')
 
 
 def gname(src):
-    k = src.n(9)
+    k = src.n(10)
+    if k == 9:
+        # atoms that span several lines, some of them holding nothing but blanks or tabs, some indented alike
+        lines = [src.pick(['first', '  second', '   ', '\t', '', '    x y', ' ', '  é']) for _ in range(2 + src.n(4))]
+        return '\n'.join(lines)
     if k == 8:
         # long atoms (90-230 characters) with characters that the code generator has to escape at varying offsets
         n = 90 + src.n(140)
@@ -54,6 +58,10 @@ def glit(src, depth=0):
         if src.n(8) == 7:
             n = 0           # foo(): a compound term without arguments, not the atom foo
         return ('f', gname(src), tuple(glit(src, depth + 1) for _ in range(n)))
+    if depth == 0 and src.rare(1, 50):
+        # a table written out as one list literal: 150-400 elements
+        n = 150 + src.n(251)
+        return mklist([('a', 'k%d' % (i % 7)) if i % 3 else ('i', i) for i in range(n)])
     items = [glit(src, depth + 1) for _ in range(src.n(4))]
     if items and src.n(4) == 3:
         return mklist(items, ('v', src.pick(['T0', 'T1', 'U_1', 'U_2', 'U_3', 'UATOM_NIL', 'UTrue'])))        # [H|T] pattern
@@ -168,7 +176,7 @@ class C16(Prop):
     technique = 'round-trip property-based testing (Hypothesis): literal AST -> source text -> compiler -> engine term -> reification / to_python, and API-built terms vs. compiled literals'
     rule = ('a literal term AST (atoms unquoted or quoted with generated backslash-free Unicode text: letters, digits, '
             'blanks, newlines and other line separators, NUL, quote written backslash-quote, double quote, punctuation, '
-            'non-BMP; integers up to 10^30, also spelled with leading zeros; compounds nested <= 4 with arbitrary functor names; proper lists; [H|T] '
+            'non-BMP, atoms spanning several lines some of which hold only blanks or tabs; list literals of 150-400 elements (one case in fifty); integers up to 10^30, also spelled with leading zeros; compounds nested <= 4 with arbitrary functor names; proper lists; [H|T] '
             'patterns; _) is printed to source and placed in fact, head-with-body, body (X = LIT) and query position, or in a fact of a source FILE compiled with compile_prolog_from_file. '
             'Round trip: the reification of X after p(X) equals the AST (up to renaming of variables; each _ distinct); '
             'to_python(X) equals the specified image (atom -> name, int -> int, proper list -> list, [] -> [], compound '
